@@ -308,9 +308,22 @@ func renderOut(v reflect.Value) string {
 			return "ctx:live"
 		}
 	}
-	s := fmt.Sprint(v.Interface())
-	if len(s) > 60 {
-		s = s[:60]
+	// only values that are the same in every process: no addresses, no
+	// random ids, no map-ordered text
+	switch v.Kind() {
+	case reflect.Bool, reflect.Int, reflect.Int8, reflect.Int16, reflect.Int32,
+		reflect.Int64, reflect.Uint, reflect.Uint8, reflect.Uint16,
+		reflect.Uint32, reflect.Uint64:
+		return fmt.Sprint(v.Interface())
+	case reflect.Slice, reflect.Map:
+		return fmt.Sprintf("%s(len %d)", v.Type().String(), v.Len())
+	case reflect.String:
+		return fmt.Sprintf("string(len %d)", v.Len())
 	}
-	return s
+	if v.Kind() == reflect.Interface || v.Kind() == reflect.Ptr {
+		if v.IsNil() {
+			return v.Type().String() + "(nil)"
+		}
+	}
+	return v.Type().String()
 }
